@@ -38,6 +38,19 @@ class Raised(Exception):
         self.node = node
 
 
+def raised_is(r, name):
+    """Is the exception an instance of the builtin exception `name` - itself, a builtin subclass, or a class of the project deriving from it?"""
+    if _exc_matches(r.etype, name):
+        return True
+    obj = getattr(r, "obj", None)
+    if obj is not None and obj.cinfo is not None:
+        for c in obj.cinfo.mro():
+            nm = c.split(".")[-1] if isinstance(c, str) else c.name
+            if nm == name or _exc_matches(nm, name):
+                return True
+    return False
+
+
 # ---- value kinds -----------------------------------------------------------
 class FuncVal:
     def __init__(self, ev, finfo, closure=None, bound=None, defcls=None):
@@ -689,7 +702,33 @@ class Evaluator:
         self.trace = []
 
     # ---- module globals ----------------------------------------------
+    def _run_registrations(self, module):
+        """Apply (once per evaluator, in source order) the project decorators of module-level functions: what they do at import time
+        (filling a registry) is part of the module's state."""
+        regs = getattr(module, "registrations", None)
+        if not regs:
+            return
+        done = self.__dict__.setdefault("_registrations_done", set())
+        if module.name in done:
+            return
+        done.add(module.name)
+        env = Env(self, module)
+        env.vars = _ModuleVars(self, module)
+        applied = self.__dict__.setdefault("_decorated", set())
+        for st in regs:
+            fi = module.functions.get(st.name)
+            if fi is None:
+                continue
+            v = FuncVal(self, fi)
+            applied.add(id(fi))
+            for d in reversed(st.decorator_list):
+                if ast.unparse(d).split("(")[0] in ("nb.njit", "numba.njit", "njit"):
+                    continue
+                v = self.call(self.eval(d, env), [v], {})
+            self.mod_cache[(module.name, st.name)] = v
+
     def module_global(self, module, name):
+        self._run_registrations(module)
         key = (module.name, name)
         ov = self.overrides.get(f"{module.name}::{name}")
         if ov is not None:
@@ -825,6 +864,8 @@ class Evaluator:
                 return cav
             if attr in ("__name__", "__qualname__"):
                 return obj.cinfo.name
+            if attr == "register" and any(isinstance(c_, str) and c_.split(".")[-1] == "ABC" for c_ in obj.cinfo.mro()):
+                return _NativeFn(lambda sub, _o=obj: self.__dict__.setdefault("_abc_registry", {}).setdefault(_o.cinfo.fq, []).append(sub) or sub)
             if attr == "__mro__":
                 return tuple(ClassVal(self, c_) if not isinstance(c_, str) else (_BUILTINS.get(c_.split(".")[-1]) or ExtVal(c_)) for c_ in obj.cinfo.mro()) + (_BUILTINS["object"],)
             if attr == "__bases__":
@@ -835,6 +876,9 @@ class Evaluator:
                 return _NativeFn(lambda it, _cv=obj: self.instantiate(_cv, list(self.iterate(it)), {}))
             if attr == "__members__" and self._class_kind(obj.cinfo) == "enum":
                 return {m.attrs["name"]: m for m in self.enum_members(obj.cinfo)}
+            if any(isinstance(c_, str) and c_.split(".")[-1] not in ("object",) for c_ in obj.cinfo.mro()):
+                # the class has a base outside the project whose attributes this model does not list: not knowing one is not an AttributeError of the code
+                raise Undecided(f"attribute {attr} of class {obj.cinfo.name}, which has a base class outside the project")
             raise Raised("AttributeError", f"class {obj.cinfo.name} has no attribute {attr}", node)
         if isinstance(obj, _ObjectType):
             if attr == "__getattribute__":
@@ -1082,6 +1126,11 @@ class Evaluator:
             raise Undecided(f"special attribute {attr} of a {cinfo.name} object")
         if attr == "__getattribute__":
             return _NativeFn(lambda name: self.getattr(obj, name, node))
+        known = ("object", "dict", "list", "ABC", "Mapping", "MutableMapping", "NamedTuple", "Enum", "IntEnum", "StrEnum", "Generic", "Protocol", "str", "int", "float", "tuple")
+        if any(isinstance(c_, str) and c_.split(".")[-1].split("[")[0] not in known and not (c_.split(".")[-1] in _EXC_PARENTS or c_.split(".")[-1].endswith(("Error", "Exception", "Warning")))
+               for c_ in cinfo.mro()):
+            # a base class outside the project whose attributes this model does not list: not knowing one is not an AttributeError of the code
+            raise Undecided(f"attribute {attr} of a {cinfo.name} object, whose class has a base outside the project")
         raise Raised("AttributeError", f"{cinfo.name} object has no attribute {attr}", node)
 
     def _mapping_mixin(self, obj, attr):
@@ -1287,6 +1336,10 @@ class Evaluator:
             except (ValueError, KeyError, IndexError, AttributeError, ZeroDivisionError) as e:
                 # a builtin method of a folded str/list/dict value raised: that is the analysed code's exception
                 raise Raised(type(e).__name__, str(e), node)
+        if isinstance(f, _ObjectType):
+            if args or kwargs:
+                raise Raised("TypeError", "object() takes no arguments", node)
+            return record("object")  # a fresh sentinel: identical only to itself
         if isinstance(f, ExtVal):
             return self.call_ext(f, args, kwargs, node)
         if isinstance(f, OpaqueObj):
@@ -1441,7 +1494,7 @@ class Evaluator:
             r = self.on_call(self, fv, args, kwargs)
             if r is not NotImplemented:
                 return r
-        if getattr(fi, "other_decorators", None):
+        if getattr(fi, "other_decorators", None) and id(fi) not in self.__dict__.get("_decorated", ()):
             raise Undecided(f"function {fi.name} is wrapped by a decorator the folder gives no meaning to ({fi.other_decorators[0][:40]})")
         if getattr(fi, "memo_decorator", None) and not getattr(fv, "_memo_bypass", False):
             return self._memo_call(fv, args, kwargs, node)
@@ -2855,6 +2908,11 @@ def _arr_index(o, k):
     d = o.cells
     if not isinstance(k, tuple):
         k = (k,)
+    if any(x is Ellipsis for x in k):
+        # `...` stands for as many full slices as are needed to reach the array's rank
+        i_ = [j for j, x in enumerate(k) if x is Ellipsis][0]
+        n_fill = len(o.shape) - sum(1 for x in k if x is not None and x is not Ellipsis)
+        k = k[:i_] + (slice(None),) * max(n_fill, 0) + k[i_ + 1:]
 
     def rec(d, ks):
         if not ks:
@@ -2899,6 +2957,39 @@ def _arr_store(o, k, v, node=None):
             c.v = vals[i_] if vals is not None else v
         return
     ks = k if isinstance(k, tuple) else (k,)
+    if any(x is Ellipsis for x in ks):
+        i_ = [j for j, x in enumerate(ks) if x is Ellipsis][0]
+        n_fill = len(o.shape) - sum(1 for x in ks if x is not None and x is not Ellipsis)
+        ks = ks[:i_] + (slice(None),) * max(n_fill, 0) + ks[i_ + 1:]
+        k = ks
+    if ks and isinstance(ks[0], (Arr, list)) and len(o.shape) >= 1:
+        # advanced index on the first axis (boolean mask over the rows, or a list of row numbers), further basic indices on each selected row
+        first = [num_norm(x) for x in (ks[0].flat() if isinstance(ks[0], Arr) else ks[0])]
+        if first and all(isinstance(x, bool) for x in first):
+            if len(first) != len(o.cells):
+                raise Raised("IndexError", f"boolean index did not match indexed array along axis 0; size of axis is {len(o.cells)} but size of corresponding boolean axis is {len(first)}", node)
+            rows = [i for i, b_ in enumerate(first) if b_]
+        elif all(isinstance(x, int) and not isinstance(x, bool) for x in first):
+            rows = first
+        else:
+            raise Undecided("array store through a symbolic advanced index")
+        vals = v.data if isinstance(v, Arr) else (list(v) if isinstance(v, (list, tuple)) else None)
+        if vals is not None and len(vals) != len(rows) and not (len(vals) == 1):
+            raise Raised("ValueError", f"shape mismatch: value array of length {len(vals)} could not be broadcast to the {len(rows)} selected rows", node)
+        for j, i in enumerate(rows):
+            sub = (vals[j] if len(vals) == len(rows) else vals[0]) if vals is not None else v
+            if len(ks) > 1:
+                row = o.cells[i]
+                if isinstance(row, list):
+                    _arr_store(Arr.view(row), ks[1:] if len(ks) > 2 else ks[1], sub, node)
+                else:
+                    raise Raised("IndexError", "too many indices for array", node)
+            elif isinstance(o.cells[i], list):
+                _arr_store(Arr.view(o.cells[i]), slice(None), sub, node)
+            else:
+                _cells_written([o.cells[i]])
+                o.cells[i].v = sub
+        return
     if any(isinstance(i, Rat) for i in ks):
         raise Undecided("symbolic array index in a store")
     if any(not isinstance(i, (int, slice)) or isinstance(i, bool) for i in ks):
@@ -3535,6 +3626,42 @@ def _np_outer(ev, a, b):
     return Arr([[ev.binop(ast.Mult(), x, y) for y in b.flat()] for x in a.flat()])
 
 
+def _np_indices(dims):
+    dims = [num_norm(d) for d in dims]
+    if not all(isinstance(d, int) for d in dims):
+        raise Undecided("np.indices with a symbolic shape")
+    import itertools as it_
+
+    def grid(axis):
+        def build(prefix, rest):
+            if not rest:
+                return prefix[axis]
+            return [build(prefix + (i,), rest[1:]) for i in range(rest[0])]
+        return build((), dims)
+
+    if not dims or 0 in dims:
+        return Arr([[] for _ in dims]) if dims else Arr([])
+    return Arr([grid(ax) for ax in range(len(dims))])
+
+
+def _np_argwhere(ev, a):
+    if a is None:
+        raise Undecided("np.argwhere of a non-array")
+    out = []
+
+    def rec(d, idx):
+        if isinstance(d, list):
+            for i, x in enumerate(d):
+                rec(x, idx + (i,))
+        elif ev.truth(d):
+            out.append(list(idx))
+
+    rec(a.data, ())
+    if not out:
+        raise Undecided("np.argwhere without a match (the shape of an empty result is not modelled)")
+    return Arr(out)
+
+
 def _concrete_list(vals):
     vals = [num_norm(v) for v in vals]
     if any(isinstance(v, Rat) for v in vals):
@@ -4008,6 +4135,11 @@ _EXT_CALLS = {
     "numpy.matmul": lambda ev, a, b: ev.binop(ast.MatMult(), _as_arr(ev, a), _as_arr(ev, b)),
     "numpy.einsum": _np_einsum,
     "numpy.where": _np_where,
+    "numpy.isin": lambda ev, a, b, **k: (_as_arr(ev, a)._map(lambda x: any(_eq(ev, num_norm(x), num_norm(y)) for y in _it(b))) if _as_arr(ev, a) is not None
+                                          else any(_eq(ev, num_norm(a), num_norm(y)) for y in _it(b))),
+    "numpy.indices": lambda ev, dims, **k: _np_indices(dims),
+    "numpy.argwhere": lambda ev, a: _np_argwhere(ev, _as_arr(ev, a)),
+    "numpy.ix_": lambda ev, *a: _raise_undecided("np.ix_"),
     "numpy.sort": lambda ev, a, **k: Arr(_sorted_concrete(_as_arr(ev, a).flat())) if len(_as_arr(ev, a).shape) == 1 else _raise_undecided("np.sort of a matrix"),
     "numpy.argsort": lambda ev, a, **k: Arr([i for i, _ in sorted(enumerate(_concrete_list(_as_arr(ev, a).flat())), key=lambda t: t[1])]),
     "numpy.argmax": lambda ev, a, axis=None, **k: _np_arg(ev, a, axis, max),
